@@ -6,6 +6,7 @@ import (
 	"os"
 	"sort"
 	"strconv"
+	"strings"
 	"time"
 )
 
@@ -274,5 +275,18 @@ func wConfig(prop, tier string) *Config {
 	default:
 		return nil
 	}
+	// liquidation at the edge (the weakest long / short just under the safety factor, still above 1), all
+	// positions named in one Liquidate list in either order: every property that sees perpetual positions
+	for _, p := range []string{"C01", "C09", "C10", "C11"} {
+		if p == prop {
+			for i := range cfg.Phases {
+				if strings.HasPrefix(cfg.Phases[i].Name, "full-") {
+					cfg.Phases[i].Ops = append(append([]string{}, cfg.Phases[i].Ops...), perpEdgeOps...)
+				}
+			}
+		}
+	}
 	return cfg
 }
+
+var perpEdgeOps = []string{"perp_bot_liquidate_all_fwd_at_edge_long", "perp_bot_liquidate_all_rev_at_edge_long", "perp_bot_liquidate_all_fwd_at_edge_short", "perp_bot_liquidate_all_rev_at_edge_short"}
